@@ -17,6 +17,8 @@ CHECKS = {
     "C04": ("vf.checks_wire", "c04"),
     "C05": ("vf.checks_wire", "c05"),
     "C06": ("vf.checks_wire", "c06"),
+    "C07": ("vf.checks_wire", "c07"),
+    "C18": ("vf.checks_wire", "c18"),
     "C19": ("vf.checks_wire", "c19"),
 }
 
